@@ -754,7 +754,7 @@ func (c *Ctx) wf(v *Val) *Val {
 	case *types.Pointer, *types.Map:
 		c.assumeAlways(app("<=", "0", v.Term))
 		if rtyped(v.T) {
-			c.assumeAlways(or(eq(v.Term, "0"), eq(app("rtype", v.Term), num(int64(c.prog.typeTag(v.T))))))
+			c.assume(or(eq(v.Term, "0"), eq(app("rtype", v.Term), num(int64(c.prog.typeTag(v.T))))))
 		}
 	}
 	return v
